@@ -23,7 +23,7 @@ func gen(t *rapid.T) sw.Scenario {
 	case 3:
 		sc.InitialHeight = uint64(rapid.IntRange(2, 5).Draw(t, "ihs"))
 	default:
-		sc.InitialHeight = 1<<32 + uint64(rapid.IntRange(0, 3).Draw(t, "ihb"))
+		sc.InitialHeight = 1<<20 + uint64(rapid.IntRange(0, 3).Draw(t, "ihb")) // large, but a pending range wrongly starting at 0 stays allocatable (2^32 would be a 32 GiB slice: a hang, not a verdict)
 	}
 	emptyBias := rapid.SampledFrom([]int{100, 100, 70, 40, 0}).Draw(t, "emptybias")
 	n := rapid.IntRange(4, world.Scale(30, 60)).Draw(t, "nops")
@@ -31,8 +31,12 @@ func gen(t *rapid.T) sw.Scenario {
 		switch k := rapid.IntRange(0, 19).Draw(t, "op"); {
 		case k < 11:
 			sc.Ops = append(sc.Ops, sw.GenProduce(t, emptyBias))
-		case k < 17:
+		case k < 16:
 			sc.Ops = append(sc.Ops, sw.Op{Kind: "tick", N: rapid.IntRange(1, 2).Draw(t, "nt")})
+		case k < 17:
+			// the node is restarted (cleanly or after a crash), possibly before the DA layer ever
+			// acknowledged anything
+			sc.Ops = append(sc.Ops, sw.Op{Kind: rapid.SampledFrom([]string{"restart", "crash"}).Draw(t, "restartkind")})
 		default:
 			// a DA outage of finite length for one kind of submission
 			tg := rapid.SampledFrom([]string{"header", "data"}).Draw(t, "target")
@@ -60,6 +64,7 @@ func run(sc sw.Scenario, dir string) world.Verdict {
 		L := int(sc.MaxPending)
 		throttled, empties, produced := 0, 0, 0
 		var knownHit *world.Verdict
+		restarted := false
 		for i, o := range sc.Ops {
 			var waitingBefore int
 			if o.Kind == "produce" {
@@ -70,7 +75,10 @@ func run(sc sw.Scenario, dir string) world.Verdict {
 			}
 			r, err := w.Apply(o)
 			if err != nil {
-				return world.Fail("C08/apply", "op %d: %v", i, err)
+				return world.Fail("C08/restart-fails", "op %d (%s): %v", i, o.Kind, err)
+			}
+			if o.Kind == "restart" || o.Kind == "crash" {
+				restarted = true
 			}
 			if r == nil {
 				continue
@@ -154,6 +162,9 @@ func run(sc sw.Scenario, dir string) world.Verdict {
 		}
 		if sc.InitialHeight > 1 {
 			ls = append(ls, "initial>1")
+		}
+		if restarted {
+			ls = append(ls, "restarted")
 		}
 		if knownHit != nil {
 			return *knownHit
